@@ -47,14 +47,18 @@ Definition c02_check (c : c02case) : bool :=
    it (bd') and from the model's own application of the edits (apply_edits bd es), so that the
    edits of the theorems are the edits that were tried. *)
 Inductive c13case :=
-| CEdit (bd : bundle) (es : list edit) (bd' : bundle) (pkg : str) (ok ok' okall okall' : bool) (files files' : list dfile).
+| CEdit (bd : bundle) (es : list edit) (bd' : bundle) (pkg : str) (ok ok' okall okall' embeds : bool) (files files' : list dfile).
 
 (* okall / okall': the real compiler accepted every package of the bundle before / after the
    edits - exactly when the bundle is [valid] (the hypothesis of C13_full on both sides) *)
 Definition c13_check (c : c13case) : bool :=
   match c with
-  | CEdit bd es bd' pkg ok ok' okall okall' files files' =>
+  | CEdit bd es bd' pkg ok ok' okall okall' embeds files files' =>
       compile_check bd pkg ok files && compile_check bd' pkg ok' files' &&
       compile_check (apply_edits bd es) pkg ok' files' &&
-      Bool.eqb (valid bd) okall && Bool.eqb (valid (apply_edits bd es)) okall'
+      Bool.eqb (valid bd) okall && Bool.eqb (valid (apply_edits bd es)) okall' &&
+      (* the embedding itself, on what the real compiler produced before and after (embeds =
+         false only for the hand-written pair of the known finding: an option ending in
+         UNSPECIFIED appended to an enum without options) *)
+      (if ok && ok' then Bool.eqb (files_ext_b files files') embeds else true)
   end.
